@@ -157,7 +157,7 @@ theorem C04_tables : Tables where
 
 /-- **C04_field_agree**: every legal representation of a logical tensor (element type `d` of `bw`
     bits, shape `dims`, element bit patterns `xs`) — array-backed with any storage form, torch
-    adapter, packed, proto-backed through `raw_data`, `int32_data` (any congruent int32 values, at
+    adapter (also over a contiguous view at any storage offset of a larger storage), packed, proto-backed through `raw_data`, `int32_data` (any congruent int32 values, at
     32/16/8 bits and packed at 4/2 bits), `int64_data`, `uint64_data` (also for UINT32),
     `float_data` / `double_data` (also as complex pairs), external at any offset inside any file,
     and a lazy wrapper around any of these — reports `d` and `dims`, has
@@ -247,6 +247,9 @@ example : Legal .uint32 [2] 32 [1, 0xFFFFFFFF] (.proto { dataType := 12, dims :=
   Legal.protoUint64as32 _ rfl (by decide)
 example : Legal .uint2 [5] 2 [0, 1, 2, 3, 1] (.torch .uint2 [5] [0, 1, 2, 3, 1]) :=
   Legal.torch _ (by decide) (by decide) (by decide)
+-- a torch view at storage offset 2 of a 7-element storage
+example : Legal .uint8 [3] 8 [5, 6, 7] (.torch .uint8 [3] (torchView ([1, 2] ++ [5, 6, 7] ++ [9, 9]) 2 3)) :=
+  Legal.torchView [1, 2] [5, 6, 7] [9, 9] (by decide) (by decide) (by decide)
 -- and the conclusions are not trivially true: the model answers concrete bytes
 example : (Rep.proto { dataType := 22, dims := [3], int32Data := [127, -248] }).numpy = .ok [15, 7, 8] := rfl
 example : (Rep.external { dtype := .uint2, dims := [5], offset := some 1, length := none } (some [7, 0xE4, 0x01])).numpy
